@@ -63,6 +63,11 @@ var monitors = map[string]func(cs *fw.Case){
 }
 
 func runReplay(cs *fw.Case) {
+	if cs.Index >= len(replay) {
+		// the driver may stretch case lists by a multiple; the directed list has
+		// a fixed length
+		return
+	}
 	e := replay[cs.Index]
 	cs.Monitor = e.Mon
 	cs.R = prng.For(e.Seed, e.Mon, e.Idx)
